@@ -103,3 +103,18 @@ CLAIMED['C03'] = ('model_checking',
     'DESIGN.md#c03',
     'Trusted: TLC, the transcription of TeX\'s conditional rules in Expand.tla, the generator (NF-COND, NF-NUM).',
     TECH_REF)
+CLAIMED['C05'] = ('model_checking',
+    'Args.tla: TLC enumerates every signature of up to MaxArgs specifications (star, [], (), <>, mandatory) x every conforming call built '
+    'from a fragment catalogue (optional present/absent, nested same-kind brackets, brace groups hiding a closer or an opener, blanks, '
+    'single-token arguments, control sequences) x 8 followers and checks the reader machine (readCharacter / readGrouping with nesting '
+    'and brace counters / readToken) against what was written (BindsDeclared, ConsumesExactly, NeverStuck); every behaviour is replayed on '
+    'a real Command subclass with that signature comparing the bound token lists, the text left after the invocation and the balance of the '
+    'parameter-scanning switch.  A typed-argument table (str, int, float, list with two delimiters, dict, Tok, nox, Dimen, Number) is run '
+    'through the real casts.  Numbers.tla: TLC enumerates the bounded numeral grammar (7 sign runs x 16 integer forms in four radices, '
+    'character codes and registers; 10 decimal forms x 4 unit prefixes x 13 unit spellings; register multiples; glue with 6 stretch/shrink '
+    'forms incl. the three fil orders) x 5 followers with exact rational denotations; each is fed to readInteger/readDimen/readGlue.',
+    'DESIGN.md#c05',
+    'Trusted: TLC, the fragment catalogue and numeral grammar with their denotations. The numeric scanners are covered by the rule layer '
+    '(grammar + denotation) only, as a pure function enumerated case by case; magnitudes are compared by the harness with exact fractions '
+    'from the spec\'s unit table (they exceed 32-bit TLC integers).',
+    'TLA+ spec (reader machine vs written call; numeral grammar with denotations) enumerated by TLC; every case replayed into the real readers')
